@@ -20,10 +20,41 @@ import (
 	mvp7_0 "github.com/teivah/majorana/proc/mvp7-0"
 	mvp7_1 "github.com/teivah/majorana/proc/mvp7-1"
 	mvp8_0 "github.com/teivah/majorana/proc/mvp8-0"
+	"github.com/teivah/majorana/proc/comp"
 	"github.com/teivah/majorana/risc"
 
 	"verif/ref"
 )
+
+// Snapshotter is offered by the coherent variants (hook, build tag verif).
+type Snapshotter interface {
+	VerifSnapshot() comp.VerifSnapshot
+}
+
+// Rig is the pipeline-less controller rig of a coherent variant (hook).
+type Rig interface {
+	Memory() []int8
+	Snoop()
+	Read(core int, addrs []int32, cycle int) ([]int8, bool)
+	Write(core int, addrs []int32, data []int8, cycle int) bool
+	Flush(core int)
+	Quiescent() bool
+	WriteBack()
+	Snapshot() comp.VerifSnapshot
+}
+
+// NewRig builds the controller rig of a coherent variant.
+func NewRig(variant string, cores, memBytes int) Rig {
+	switch variant {
+	case "mvp7-0":
+		return mvp7_0.NewVerifRig(cores, memBytes)
+	case "mvp7-1":
+		return mvp7_1.NewVerifRig(cores, memBytes)
+	case "mvp8-0":
+		return mvp8_0.NewVerifRig(cores, memBytes)
+	}
+	panic("sim: no rig for " + variant)
+}
 
 // VM is what every variant offers.
 type VM interface {
